@@ -129,6 +129,10 @@ def finish(ctx, summaries, extra_coverage=None, extra_assumptions=()):
         lines.append("  # %s lhs=%r rhs=%r %s" % (key, r["finding"].get("lhs"), r["finding"].get("rhs"), r["finding"].get("detail", "")))
     if violations:
         status = 1
+        byjob = {}
+        for job, r, key in violations:
+            byjob[job.name] = byjob.get(job.name, 0) + 1
+        lines.append("VIOLATING-JOBS: " + ", ".join("%s(%d)" % kv for kv in sorted(byjob.items())))
     harness_err = bool(errors) or bool(nonrepro) or bool(vac_bad)
     inconclusive = n_unknown > 0 or bool(budget)
     if status == 0:
